@@ -74,6 +74,11 @@ def _flat_ops(ops):
     return out
 
 
+def _norm_exc(exc):
+    import re
+    return [exc[0], re.sub(r"0x[0-9a-fA-F]+", "0x?", exc[1])]
+
+
 def _describe(r):
     return "chart" if r.get("ok") else f"{r['exc'][0]}: {r['exc'][1][:120]}"
 
@@ -123,7 +128,7 @@ def check_history(ctx: Ctx, case, baselines=None) -> None:
             if r.get("eq_first") is False:
                 ctx.fail("repeat-not-equal", f"text {ti} selection {sel} ({how}): chart != the chart "
                                              f"parsed earlier from the same text in this process", rc)
-        elif r["exc"] != b["exc"]:
+        elif _norm_exc(r["exc"]) != _norm_exc(b["exc"]):
             ctx.fail("history-dependent", f"text {ti} ({how}): raised {r['exc']!r} in the history but "
                                           f"{b['exc']!r} alone", rc)
     n_threads = sum(1 for op in ops if op[0] == "threads")
